@@ -659,7 +659,7 @@ pub fn run_driver(sbx: &Path, sc: &Scenario) -> DriverRun {
                 use std::os::unix::process::ExitStatusExt;
                 match (st.code(), st.signal()) {
                     (Some(0), _) => run.complete = true,
-                    (Some(c), _) if c == 3 || c == 4 => {
+                    (Some(c), _) if c == 3 || c == 4 || c == 5 => {
                         run.trouble = Some(format!("driver setup failed (exit {}): {}", c, short(&run.stderr_tail)));
                     }
                     (c, s) => {
@@ -690,11 +690,38 @@ pub struct Env {
     pub shrink_budget: Cell<u32>,
 }
 
-pub fn mk_env(known: BTreeSet<String>) -> Env {
+pub fn mk_env(known: BTreeSet<String>, sbx: PathBuf) -> Env {
     Env {
-        sbx: sbx_path().unwrap_or_else(|_| PathBuf::from("rv-sbx")),
+        sbx,
         known,
         shrink_budget: Cell::new(48),
+    }
+}
+
+/// A private copy of `rv-sbx` for the duration of one run: the sandbox respawns children from
+/// the driver's own executable, so a concurrent `cargo build` replacing target/release/rv-sbx
+/// would make respawns fail (observed) for reasons unrelated to the code under test.
+pub struct PrivateSbx {
+    pub path: PathBuf,
+}
+
+impl PrivateSbx {
+    pub fn new() -> Result<PrivateSbx, String> {
+        let src = sbx_path()?;
+        let dir = std::env::temp_dir().join(format!("rv-c18-{}", std::process::id()));
+        std::fs::create_dir_all(&dir).map_err(|e| format!("cannot create {}: {}", dir.display(), e))?;
+        let path = dir.join("rv-sbx");
+        std::fs::copy(&src, &path).map_err(|e| format!("cannot copy {} to {}: {}", src.display(), path.display(), e))?;
+        Ok(PrivateSbx { path })
+    }
+}
+
+impl Drop for PrivateSbx {
+    fn drop(&mut self) {
+        let _ = std::fs::remove_file(&self.path);
+        if let Some(d) = self.path.parent() {
+            let _ = std::fs::remove_dir(d);
+        }
     }
 }
 
@@ -924,14 +951,15 @@ pub fn run(cx: &Cx) -> Report {
         "a request expected to succeed that is answered Err(Timeout), or an execute() without any reply within 30 s, is reported only if it reproduces in 3 consecutive runs of the same scenario (machine load can legitimately cause the former)".into(),
         "one Sandbox per driver process (async-ctrlc permits a single CtrlC); the interrupt path (Ctrl-C) is not exercised here".into(),
     ];
-    let sbx = match sbx_path() {
+    let private = match PrivateSbx::new() {
         Ok(p) => p,
         Err(e) => {
             rep.inconclusive = Some(e);
             return rep;
         }
     };
-    rep.stats.note("driver", json!(sbx.display().to_string()));
+    let sbx = private.path.clone();
+    rep.stats.note("driver", json!(format!("private copy of {}", sbx_path().map(|p| p.display().to_string()).unwrap_or_default())));
     let known = cx.known.clone();
 
     crate::regress::run(cx, &mut rep, &replay);
@@ -941,11 +969,12 @@ pub fn run(cx: &Cx) -> Report {
     let (items, full_len) = enumerate(cx.tier);
     let n_items = items.len();
     let k1 = known.clone();
+    let sbx1 = sbx.clone();
     rep.absorb(par_sweep(
         cx,
         "exhaustive",
         items,
-        move || mk_env(k1.clone()),
+        move || mk_env(k1.clone(), sbx1.clone()),
         |env, sc, st| check_scenario(env, sc, st),
         |sc| serde_json::to_value(sc).unwrap(),
     ));
@@ -962,13 +991,14 @@ pub fn run(cx: &Cx) -> Report {
     // phase 2: random sequences with gaps
     let cases = cx.tier.pick(96u64, 3000);
     let k2 = known.clone();
+    let sbx2 = sbx.clone();
     let (lo, hi) = cx.tier.pick((4usize, 5usize), (4, 6));
     rep.absorb(par_proptest(
         cx,
         "random",
         cases,
         move || scenario_strategy(lo, hi),
-        move || mk_env(k2.clone()),
+        move || mk_env(k2.clone(), sbx2.clone()),
         |env, sc, st| check_scenario(env, sc, st),
         |sc| serde_json::to_value(sc).unwrap(),
     ));
@@ -995,12 +1025,16 @@ pub fn run(cx: &Cx) -> Report {
 
 pub fn replay(cx: &Cx, _phase: &str, case: &J, st: &mut Stats) -> CaseResult {
     let sc: Scenario = serde_json::from_value(case.clone()).map_err(|e| format!("bad case: {}", e))?;
-    let env = mk_env(cx.known.clone());
-    if let Err(e) = sbx_path() {
-        println!("INCONCLUSIVE property=C18 {}", e);
-        std::process::exit(2);
-    }
+    let private = match PrivateSbx::new() {
+        Ok(p) => p,
+        Err(e) => {
+            println!("INCONCLUSIVE property=C18 {}", e);
+            std::process::exit(2);
+        }
+    };
+    let env = mk_env(cx.known.clone(), private.path.clone());
     let r = check_scenario(&env, &sc, st);
+    drop(private);
     if r.is_ok() && (st.classes.contains_key("scenarios_inconclusive") || !st.excluded.is_empty()) {
         println!(
             "INCONCLUSIVE property=C18 replayed scenario could not be judged: {} {:?}",
